@@ -59,7 +59,7 @@ CHECKS = {
          "Exceptions leaving a fiber's outermost frame end the run (fixed by the repository's own script). Which error class wins when a running fiber is re-entered with a wrong argument count is not fixed by the property and is left out.",
          "5/C09"),
  "C15": ("explicit-state breadth-first search over snippet histories with reference M-repl; every transition replayed on a fresh real interpreter",
-         "BFS over histories (length 5/8) of 35 snippets (assignments to undefined globals and a failing initialiser, probed for names that must not exist; definitions/uses, compile error, uncaught throws from top level, nested calls, a fiber, a chain of two fibers, try/finally, a half-declared class, a built-in inside a method, after a closure escaped from the failing call frame / fiber; clean try/finally and try/catch probes, probes of the dead fibers and of the escaped closures, a fiber suspended inside try/finally and resumed later, import and module mutation, reset) with canonical model state; each transition is the shortest history to its source state plus the snippet, run on one real Vm; per-snippet output and outcome must equal the model's; no panic; a second family runs every history up to length 3/4 over the whole alphabet without merging by model state (a failing snippet leaves the model state unchanged, so the merging search never runs anything after it); swept objects are quarantined and any touch of freed memory is a violation.",
+         "BFS over histories (length 5/8) of 36 snippets (a probe of every built-in name; assignments to undefined globals and a failing initialiser, probed for names that must not exist; definitions/uses, compile error, uncaught throws from top level, nested calls, a fiber, a chain of two fibers, try/finally, a half-declared class, a built-in inside a method, after a closure escaped from the failing call frame / fiber; clean try/finally and try/catch probes, probes of the dead fibers and of the escaped closures, a fiber suspended inside try/finally and resumed later, import and module mutation, reset) with canonical model state; each transition is the shortest history to its source state plus the snippet, run on one real Vm; per-snippet output and outcome must equal the model's; no panic; a second family runs every history up to length 3/4 over the whole alphabet without merging by model state (a failing snippet leaves the model state unchanged, so the merging search never runs anything after it); swept objects are quarantined and any touch of freed memory is a violation.",
          "Counters bounded to keep the state space finite.",
          "5/C15"),
  "C04": ("explicit-state reachability over the abstract (pc, operand-stack height) space of every compiled function (M-vm) + trace conformance + limit-sized program enumeration",
@@ -79,7 +79,7 @@ CHECKS = {
          "Only programs that exhaust the hooks runner's instruction budget are left out (a panic of the checked build is a disagreement like any other). The fiber/raw-pointer agreement monitor runs in C09's replays.",
          "5/C10"),
  "C16": ("exhaustive enumeration of loop programs + runtime invariant monitor over every allocation event of the optimised build",
-         "Every loop program whose body is a multiset of 1-2 (3) of 20 allocation kinds x 3 live-set shapes runs in the release build with the allocation log: at each of ~2M allocation/collection events the pacing rule (no allocation at/above the threshold without a collection; heap <= max(2 x survivors, 64 KiB) + one allocation; threshold = 2 x survivors; collections only when the threshold was reached), continuous and exact accounting, a clean residue after dropping the interpreter, and equal live-object counts after n and 2n iterations are checked.",
+         "Every loop program whose body is a multiset of 1-2 (3) of 22 allocation kinds (incl. a fiber run by a fiber and handed on, and closures made at every level of a recursion) x 3 live-set shapes runs in the release build with the allocation log: at each of ~2M allocation/collection events the pacing rule (no allocation at/above the threshold without a collection; heap <= max(2 x survivors, 64 KiB) + one allocation; threshold = 2 x survivors; collections only when the threshold was reached), continuous and exact accounting, a clean residue after dropping the interpreter, and equal live-object counts after n and 2n iterations are checked.",
          "Interned strings and compiled code are excluded from the n-vs-2n comparison by type name, as the property states.",
          "5/C16"),
 }
